@@ -189,6 +189,29 @@ pub fn fresh(args: &[String]) -> i32 {
     }
 }
 
+/// `fresh-seq <file>`: the calls of a JSON-lines file, in order, in this (fresh) process; prints one
+/// JSON array with the encoded outcomes.
+pub fn fresh_seq(args: &[String]) -> i32 {
+    use crate::json::J;
+    let text = match args.first().map(std::fs::read_to_string) {
+        Some(Ok(t)) => t,
+        _ => return 2,
+    };
+    let cases: Vec<crate::core::Case> = text.split('\n').filter(|l| !l.is_empty()).filter_map(|l| J::parse(l).ok()).filter_map(|j| crate::core::Case::from_json(&j)).collect();
+    let h = std::thread::Builder::new().stack_size(8 * 1024 * 1024 + 256 * 1024).spawn(move || {
+        let mut outs: Vec<String> = vec![];
+        for c in &cases {
+            let len = c.exprs[0].chars().count();
+            outs.push(sut::call_with(c.ev, &c.exprs[0], &c.phs[0], sut::c02_budget(len), 0).outcome.enc());
+        }
+        println!("{}", J::strs(outs).to_string());
+    });
+    match h.map(|h| h.join()) {
+        Ok(Ok(())) => 0,
+        _ => 1,
+    }
+}
+
 /// Write a corpus of hostile calls (JSON lines) for the sanitizer stages: gen-corpus <n> <path> [seed]
 pub fn gen_corpus(args: &[String]) -> i32 {
     use crate::gen::*;
